@@ -31,6 +31,7 @@ pub struct Case {
     pub ptype: String,
     pub stranded: bool,
     pub threshold: usize,
+    #[serde(with = "simcore::dna::serde_seqs")]
     pub reads: Vec<Vec<u8>>,
     /// order in which shard graphs reach the combiner (seed of a shuffle; 0 = bucket order)
     pub combine_seed: u64,
